@@ -544,6 +544,9 @@ func callSSA(i *interpreter, caller *frame, callpos token.Pos, fn *ssa.Function,
 			}
 			panic(pathAbort{kind: abortUnsupported, msg: "no model for time function: " + name + callerChain(caller)})
 		}
+		if i.eng.NoopFuncs[name] {
+			return zeroResult(fn.Signature)
+		}
 		if pp := pkgPathOf(fn); pp != "" && i.eng.noop(pp) {
 			return zeroResult(fn.Signature)
 		}
@@ -732,6 +735,9 @@ func doRecover(caller *frame) value {
 		caller.caller.panic = nil
 		switch p := p.(type) {
 		case targetPanic:
+			if len(caller.i.res.Observation) < 50 {
+				caller.i.res.Observation = append(caller.i.res.Observation, "recovered panic: "+caller.i.panicMessage(p.v))
+			}
 			return p.v
 		default:
 			panic(fmt.Sprintf("unexpected panic type %T in target call to recover()", p))
